@@ -14,6 +14,10 @@ type CheckDef struct {
 	QuickBudget    time.Duration
 	ThoroughBudget time.Duration
 	Level          string
+	LevelText      string
+	LevelNote      string
+	Technique      string
+	Hidden         bool
 	Explanation    string
 	Bounds         map[string]string // tier -> bounds text
 	Outside        []string
@@ -29,4 +33,24 @@ func checkIDs() []string {
 	}
 	sortStrings(ids)
 	return ids
+}
+
+const techniqueText = "bounded symbolic execution of the real Go code (go/ssa) with SMT (z3) discharge of every obligation; counterexamples replayed on the real build"
+
+func init() {
+	checks["C12"] = &CheckDef{
+		Pkgs:    []string{"./control"},
+		Splice:  true,
+		Harness: []string{"control:Verif_C12_single_prefix"},
+		MaxIter: 400,
+		Level:   "other",
+		LevelText: "For one prefix of any family with all 128 address bits and all 128 probe bits symbolic, the solver shows that the real userspace trie (NewTrieFromPrefixes/HasPrefix/Prefix2bin128) and the real kernel LPM key (cidrToBpfLpmKey, spliced from bpf_utils.go) both decide exactly CIDR containment on the IPv4-mapped form. This is a statement about every address and probe inside the bound, which tests can only sample; it is bounded (lengths listed per tier) and therefore not a proof.",
+		LevelNote: "Trusted: go/ssa, the executor, z3, the bitwise containment spec in the harness, the kernel LPM trie's longest-prefix rule (modelled as 'first PrefixLen bits of the key bytes equal'), a warm byte-buffer pool. Quick tier: boundary prefix lengths only; thorough: all lengths 0..128 / 0..32.",
+		Technique: techniqueText,
+		Explanation: "Bounded symbolic execution of the real trie / LPM-key code from go/ssa against a bitwise containment specification.",
+		Bounds:  map[string]string{"quick": "one prefix; v6/IPv4-mapped lengths {0,1,7,8,9,31,32,33,64,95,96,97,104,127,128}, v4 lengths {0,1,8,9,24,31,32}; all address and probe bits symbolic", "thorough": "one prefix, every length 0..128 (v6) and 0..32 (v4); all address and probe bits symbolic"},
+		Outside: []string{"kernel LPM trie implementation (contract only)", "geodata-scale sets"},
+		Assumptions: []string{"sync.Pool hands out a warm buffer (capacity 512)", "kernel LPM lookup = longest-prefix rule over key bytes"},
+		QuickBudget: 8 * time.Minute, ThoroughBudget: 40 * time.Minute,
+	}
 }
